@@ -70,6 +70,13 @@ impl TryFrom<f64> for Decimal {
                 value
             ));
         }
+        // 10^exp has to fit in u32 wherever the scale is applied (here and in the regex engine)
+        if exp > 9 {
+            return Err(anyhow!(
+                "Value for 'multipleOf' has too many decimal places: {}",
+                exp
+            ));
+        }
         Ok(Decimal::new(value as u32, exp))
     }
 }
